@@ -37,6 +37,7 @@ type Obs struct {
 	XFind    [][]Val   `json:"xfind"` // the unmapped leaves as read back by Find
 	First    [][]Val   `json:"first"`
 	Take     [][]Val   `json:"take"`
+	ByKey    [][]Val   `json:"bykey"` // First/Take(&T{<own primary key>}) without any Where
 	MMap     [][]Val   `json:"mmap"` // Model(&T{}).Take(&map)
 	TMap     [][]Val   `json:"tmap"` // Table(t).Take(&map)
 	NMaps    int64     `json:"nmaps"` // length of the []map slice after Create (map ops)
@@ -152,7 +153,7 @@ func run(in Input) (o Obs) {
 			for i := 0; i < n; i++ {
 				o.After[i] = d.canonRec(sl.Elem().Index(i))
 			}
-		case "map", "maps", "mapsptr":
+		case "map", "mapptr", "maps", "mapsptr":
 			maps := make([]map[string]interface{}, n)
 			for i, r := range in.Recs {
 				m := map[string]interface{}{}
@@ -175,6 +176,12 @@ func run(in Input) (o Obs) {
 						o.Err = err.Error()
 					}
 				}
+			case "mapptr":
+				for i := range maps {
+					if err := db.Model(model).Create(&maps[i]).Error; err != nil && o.Err == "" {
+						o.Err = err.Error()
+					}
+				}
 			case "maps":
 				err = db.Model(model).Create(maps).Error
 			case "mapsptr":
@@ -184,15 +191,18 @@ func run(in Input) (o Obs) {
 				o.Err = err.Error()
 			}
 			o.NMaps = int64(len(maps))
+			// the caller's maps as they are after Create (not what was put in)
 			for i := 0; i < n; i++ {
-				after := append([]Val(nil), in.Recs[i]...)
+				after := make([]Val, len(d.Fields))
 				for j, f := range d.Fields {
-					if !f.PK {
-						continue
+					after[j] = vAbsent
+					keys := []string{f.Col, f.field.Name}
+					if f.PK {
+						keys = append(keys, "@id")
 					}
-					for _, key := range []string{f.Col, f.field.Name, "@id"} {
+					for _, key := range keys {
 						if v, ok := maps[i][key]; ok {
-							after[j] = mapCell(f, v)
+							after[j] = mapVal(f, v)
 						}
 					}
 				}
@@ -208,7 +218,7 @@ func run(in Input) (o Obs) {
 			}
 		}
 		o.Rows, o.Find, o.First, o.Take, o.MMap, o.TMap = empty(n), empty(n), empty(n), empty(n), empty(n), empty(n)
-		o.XFind = empty(n)
+		o.XFind, o.ByKey = empty(n), empty(n)
 		return o
 	}
 
@@ -258,7 +268,7 @@ func run(in Input) (o Obs) {
 		}
 	}
 	o.Find, o.First, o.Take, o.MMap, o.TMap = empty(n), empty(n), empty(n), empty(n), empty(n)
-	o.XFind = empty(n)
+	o.XFind, o.ByKey = empty(n), empty(n)
 	all := reflect.New(reflect.SliceOf(d.t))
 	rerr("find", db.Find(all.Interface()).Error)
 	for k := 0; k < all.Elem().Len(); k++ {
@@ -287,6 +297,38 @@ func run(in Input) (o Obs) {
 			rerr("take", err)
 		} else {
 			o.Take[i] = d.canonRec(rec)
+		}
+		// reload through the destination's own key: a fresh struct carrying only the primary key
+		// of the in-memory record, no Where
+		rec = reflect.New(d.t)
+		keyOK := len(o.After[i]) == len(d.Fields)
+		if keyOK {
+			keyed := make([]Val, len(d.Fields))
+			for j, f := range d.Fields {
+				keyed[j] = vAbsent
+				if f.PK {
+					keyed[j] = o.After[i][j]
+					if keyed[j].T == "absent" || keyed[j].eq(zeroVal(f.Kind)) {
+						keyOK = false
+					}
+				}
+			}
+			if keyOK {
+				d.buildRec(rec, keyed)
+			}
+		}
+		if !keyOK {
+			o.ByKey[i] = o.Find[i] // no usable key in memory (reported elsewhere): nothing to reload by
+		} else {
+			q := db.Take
+			if i%2 == 0 {
+				q = db.First
+			}
+			if err := q(rec.Interface()).Error; err != nil {
+				rerr("bykey", err)
+			} else {
+				o.ByKey[i] = d.canonRec(rec)
+			}
 		}
 		mm := map[string]interface{}{}
 		if in.NoMMap {
@@ -384,4 +426,16 @@ func xrec(in Input, i int) []Val {
 		return in.XRecs[i]
 	}
 	return nil
+}
+
+// mapVal: canonical value of an entry of the caller's map: in the field's kind when it still has
+// the Go type that was put in, otherwise (a key written by gorm) as a database value.
+func mapVal(f *FDesc, v interface{}) Val {
+	if v == nil {
+		return vNil
+	}
+	if reflect.TypeOf(v) == f.goType {
+		return canon(f.Kind, reflect.ValueOf(v))
+	}
+	return mapCell(f, v)
 }
